@@ -19,6 +19,7 @@ import os
 import re
 
 from aiomysensors import Gateway
+from aiomysensors.exceptions import TransportError
 from aiomysensors.model.message import Message
 from aiomysensors.model.node import Node
 from aiomysensors.transport import Transport
@@ -30,6 +31,10 @@ KEYMAP = {"k1": (0, 0), "k2": (0, 1), "k3": (1, 0), "k4": (1, 1)}  # key -> (chi
 NODE = 1
 MAX_CHOICES = 60
 AWAKE = 2   # senders named d* address this node, which is not sleeping: their send suspends in its own write
+
+
+class InjectedWriteFault(TransportError):
+    """Raised by the gated transport for a suspended write the harness chose to fail."""
 
 
 class GateTransport(Transport):
@@ -55,6 +60,7 @@ class GateTransport(Transport):
         self.events.append({"e": "write", "n": w["n"], "c": w["c"], "t": w["t"], "v": w["p"], "ack": w["ack"],
                             "cmd": w["cmd"], "id": -1})
         if self.gated:
+            ev = self.events[-1]
             fut = asyncio.get_running_loop().create_future()
             name = asyncio.current_task().get_name()
             if not re.fullmatch(r"listener|final|[sd]\d+", name):
@@ -62,13 +68,19 @@ class GateTransport(Transport):
                 # suspended write by its content, so that the stateless re-execution stays deterministic
                 name = "w:" + decoded_message.strip()
             self.pending.append((name, fut))
-            await fut
+            try:
+                await fut
+            except InjectedWriteFault:
+                ev["e"] = "write_failed"      # the transport refused the line: not a write for the monitor
+                raise
 
 
 class Execution:
     """One run of the real code under harness-controlled scheduling."""
 
-    def __init__(self, proto: str, init_keys: list[str], sender_plan: dict[str, list[tuple[str, str]]]) -> None:
+    def __init__(self, proto: str, init_keys: list[str], sender_plan: dict[str, list[tuple[str, str]]], max_faults: int = 0) -> None:
+        self.max_faults = max_faults
+        self.faults = 0
         self.loop = asyncio.new_event_loop()
         self.events: list[dict] = []
         self.tr = GateTransport(self.events)
@@ -126,10 +138,14 @@ class Execution:
             if name not in self.tasks:
                 cmds.append(("start", name))
         seen = set()
+        self.tr.pending = [(n, f) for n, f in self.tr.pending if not f.done()]    # a cancelled write is gone
         for name, _ in self.tr.pending:
             if name not in seen:
                 seen.add(name)
                 cmds.append(("release", name))
+                # a write of the flush (the listener's own, or of a task the library created for it) may fail
+                if self.faults < self.max_faults and (name == "listener" or name.startswith("w:")):
+                    cmds.append(("fail", name))
         return cmds
 
     def do(self, cmd: tuple) -> bool:
@@ -145,9 +161,13 @@ class Execution:
             self.tasks[name] = self.loop.create_task(coro, name=name)
         else:
             for i, (n, fut) in enumerate(self.tr.pending):
-                if n == name:
+                if n == name and not fut.done():
                     del self.tr.pending[i]
-                    fut.set_result(None)
+                    if kind == "fail":
+                        self.faults += 1
+                        fut.set_exception(InjectedWriteFault("injected write fault"))
+                    else:
+                        fut.set_result(None)
                     break
             else:
                 return False
@@ -163,13 +183,21 @@ class Execution:
         while self.tr.pending and guard < 1000:
             guard += 1
             n, fut = self.tr.pending.pop(0)
+            if fut.done():
+                continue
             fut.set_result(None)
             self.settle()
         errors = []
         quiescent = all(t.done() for t in self.tasks.values())
+        reported = False
         for name, t in self.tasks.items():
             if t.done() and not t.cancelled() and t.exception() is not None:
+                if self.faults and name == "listener" and isinstance(t.exception(), TransportError):
+                    reported = True      # C08: the failure is reported to the caller of listen
+                    continue
                 errors.append(f"{name}: {type(t.exception()).__name__}: {t.exception()}")
+        if self.faults and not reported:
+            errors.append("listener: the injected write failure was not reported to the caller of listen")
         # final wake, sequential
         self.tr.gated = False
         self.tr.lines.append(self.wake_line.replace(";1\n", ";2\n"))
@@ -178,10 +206,13 @@ class Execution:
         quiescent = quiescent and fin.done()
         if fin.done() and fin.exception() is not None:
             errors.append(f"final wake: {type(fin.exception()).__name__}: {fin.exception()}")
-        return {"events": self.events, "quiescent": quiescent, "errors": errors}
+        return {"events": self.events, "quiescent": quiescent, "errors": errors, "faults": self.faults}
 
     def close(self) -> None:
         try:
+            for t in list(self.tasks.values()):
+                if t.done() and not t.cancelled():
+                    t.exception()       # retrieved: no "never retrieved" noise for abandoned prefixes
             for t in asyncio.all_tasks(self.loop):
                 t.cancel()
             self.loop.run_until_complete(asyncio.sleep(0))
@@ -195,8 +226,8 @@ class Execution:
 
 
 def run_schedule(job) -> dict:
-    proto, init_keys, plan, schedule = job
-    ex = Execution(proto, init_keys, plan)
+    proto, init_keys, plan, schedule = job[:4]
+    ex = Execution(proto, init_keys, plan, job[4] if len(job) > 4 else 0)
     skipped = 0
     try:
         for cmd in schedule:
@@ -211,14 +242,15 @@ def run_schedule(job) -> dict:
 
 def explore(job) -> list[dict]:
     """Depth-first over every choice the real code offers (stateless re-execution)."""
-    proto, init_keys, plan, max_runs = job
+    proto, init_keys, plan, max_runs = job[:4]
+    max_faults = job[4] if len(job) > 4 else 0
     out = []
     stack = [[]]
     steps = 0
     while stack and len(out) < max_runs and steps < 40 * max_runs:
         steps += 1
         prefix = stack.pop()
-        ex = Execution(proto, init_keys, plan)
+        ex = Execution(proto, init_keys, plan, max_faults)
         try:
             applied = [ex.do(cmd) for cmd in prefix]
             en = ex.enabled()
@@ -243,8 +275,10 @@ def explore(job) -> list[dict]:
 # ---------------------------------------------------------------------------------------
 
 
-def model_schedules(workdir: str, keys: str, senders: str, maxsends: int, direct: str = "D0") -> tuple[list, dict]:
+def model_schedules(workdir: str, keys: str, senders: str, maxsends: int, direct: str = "D0", faults: bool = False) -> tuple[list, dict]:
     cfg = open(os.path.join(workdir, "MC_race.cfg")).read()
+    if faults:
+        cfg = cfg.replace("Faults = FALSE", "Faults = TRUE")
     cfg = cfg.replace("Keys <- K3", f"Keys <- {keys}").replace("Senders <- S2", f"Senders <- {senders}")
     cfg = cfg.replace("DirectSenders <- D1", f"DirectSenders <- {direct}")
     cfg = cfg.replace("MaxSends = 1", f"MaxSends = {maxsends}")
@@ -261,6 +295,8 @@ def model_schedules(workdir: str, keys: str, senders: str, maxsends: int, direct
     for line in out.splitlines():
         if line.startswith('<<"SCHEDULE"'):
             scheds.append(json.loads(json.loads(line[len('<<"SCHEDULE", '):-2])))
+    if faults:
+        return scheds, summ
     live = tlc.run(workdir, "MC_race", "MC_race_live.cfg", workers=4)
     ls = tlc.summary(live)
     if ls["violated"] or ls["error"]:
@@ -279,6 +315,8 @@ def concretise(s: dict, proto: str) -> tuple:
             sched.append(("start", "listener"))
         elif a == "LStep":
             sched.append(("release", "listener"))
+        elif a == "LFail":
+            sched.append(("fail", "listener"))
         elif a == "FinalWake":
             pass
         elif a[0] == "SBegin":
@@ -406,10 +444,45 @@ def check(prop: str) -> int:
         shutil.rmtree(workdir, ignore_errors=True)
 
 
+def fault_exploration(tier: str, workdir: str) -> tuple[list[dict], list[str], int, dict]:
+    """C08 under concurrency: every choice the real code offers - start a sender, release a suspended write,
+    or FAIL one suspended write of the flush - explored depth-first; after the failure the node wakes once
+    more without faults and the monitor judges what reached the transport (failed writes do not count)."""
+    protos = ["2.0", "2.2"] if tier == "quick" else ["2.0", "2.1", "2.2"]
+    ejobs = []
+    inits = [["k1"], ["k1", "k2"], ["k1", "k2", "k3"]]
+    for init in inits:
+        for proto in (protos if len(init) < 3 else protos[:1]):
+            ejobs.append((proto, init, {}, 3000, 1))                                        # the flush alone
+            ejobs.append((proto, init, {"s1": [(init[0], "s1-1")]}, 3000, 1))               # a newer value for a parked key
+            ejobs.append((proto, init, {"s1": [("k4", "s1-1")]}, 3000, 1))                  # a new key
+            if tier == "thorough" or len(init) == 2:
+                ejobs.append((proto, init, {"s1": [(init[0], "s1-1")], "s2": [(init[-1], "s2-1")]}, 3000, 1))
+    # spec -> code: every complete schedule of FlushRace.tla with Faults = TRUE that contains the failure
+    scheds, summ = model_schedules(workdir, "K2" if tier == "quick" else "K3", "S2", 1, faults=True)
+    scheds = [x for x in scheds if "LFail" in x["hist"]]
+    jobs, seen = [], set()
+    for i, x in enumerate(scheds):
+        job = concretise(x, protos[i % len(protos)]) + (1,)
+        key = json.dumps(job, sort_keys=True)
+        if key not in seen:
+            seen.add(key)
+            jobs.append(job)
+    ctx = multiprocessing.get_context("fork")
+    runs = []
+    with ctx.Pool(16) as pool:
+        runs.extend(pool.map(run_schedule, jobs, chunksize=32))
+        for job, part in zip(ejobs, pool.map(explore, ejobs, chunksize=1)):
+            runs.extend(part)
+    verdicts, states = judge(runs, workdir, 8)
+    summ["model_schedules_with_a_failed_write_replayed"] = len(jobs)
+    return runs, verdicts, states, summ
+
+
 def replay(doc: dict) -> int:
     common.enter_scratch()
     plan = {k: [tuple(x) for x in v] for k, v in doc["plan"].items()}
-    res = run_schedule((doc["proto"], doc["init"], plan, [tuple(c) for c in doc["schedule"]]))
+    res = run_schedule((doc["proto"], doc["init"], plan, [tuple(c) for c in doc["schedule"]], int(doc.get("max_faults", 0))))
     work = tlc.scratch()
     try:
         tlc.stage(work)
